@@ -255,7 +255,9 @@ fn run_history_s<S: HB>(cfg: &HistCfg, mut src: Source, out: &mut RunOut, opts: 
         let gate_broken = post_all.iter().any(|p| !p.g1.is_empty());
         if !viols.is_empty() { out.record(&viols, cfg, &oplog, step); }
         if gate_broken { out.gate_broken_histories += 1; }
-        if !viols.is_empty() || o.panic.is_some() { broken = gate_broken || o.panic.is_some(); pre_all = post_all; break; }
+        // (a documented refusal - reserve with an overflowing argument - is an ordinary event: the history goes on)
+        let stop_on_panic = o.panic.is_some() && !(cur < pre_all.len() && crate::oracle::documented_panic(&op, &pre_all[cur]));
+        if !viols.is_empty() || stop_on_panic { broken = gate_broken || stop_on_panic; pre_all = post_all; break; }
         if out.stats.samples.get("hist").map(|v| v.len()).unwrap_or(0) < 3 && step == 12 { out.stats.sample("hist", format!("{} | {}", cfg.to_text(), oplog.iter().map(|o| o.to_text()).collect::<Vec<_>>().join("; "))); }
         pre_all = post_all;
         step += 1;
